@@ -29,6 +29,16 @@ Proof.
 Qed.
 Print Assumptions c19_total_inner.
 
+(* The parser model is a function of the text alone: parsing a text after any history of other
+   texts (valid, failing at top level, failing inside open containers) gives what parsing it
+   alone gives.  Trivial in the model; that the long-lived C++ JsonParser object behaves the same
+   (Begin() resets the handler stacks) is validated by the correspondence run's "seq" cases. *)
+Theorem c19_parse_stateless :
+  forall (history : list (list N)) (text : list N),
+    parse_seq (history ++ [text]) = parse_seq history ++ [parse_text text].
+Proof. intros history text. unfold parse_seq. rewrite map_app. reflexivity. Qed.
+Print Assumptions c19_parse_stateless.
+
 (* Totality for numbers, doubles included.  A text that starts with '-' or a digit is handled by
    ParseNumber alone: (1) it costs ONE unit of the recursion budget whatever digits follow (the
    three ExtractDigits loops are structural recursion over the characters, so the work is bounded
